@@ -371,7 +371,14 @@ def _all_forwarded(rep, fn, call):
 
 # ------------------------------------------------------------------------ R16.4
 def r164(ctx, rep):
-    from .common import cacheview_flag_truthful
+    from .common import cacheview_flag_truthful, cacheview_flag_reset
+    ci, bad = cacheview_flag_reset(ctx)
+    for f2, node in bad:
+        rep.violated('R16.4', f2, norm(node)[:60],
+                     '%s replaces / empties the memo but leaves cachecomplete as it is: after a complete pass the flag stays '
+                     'raised, every later pass is served from the emptied memo and yields nothing' % f2.name, node)
+    if not bad:
+        rep.held('R16.4', (ci.module.name, ci.name), 'memo and flag are reset together', '', ci.node)
     fn, cex = cacheview_flag_truthful(ctx)
     if cex is None:
         rep.held('R16.4', fn, 'completeness == room', 'complete implies room on the grid n in {None,0,1,2,3} x len(cache) in 0..4', fn.node)
